@@ -60,7 +60,7 @@ def run(ctx):
     th.start()
     try:
         tr = os.path.join(ctx.scratch, "backup.ndjson")
-        p = twice(ctx.run_harness, ["backup-trace", "-out", tr, "-dir", ctx.sub("bk"), "-rounds", str(ctx.pick(12, 80)),
+        p = twice(ctx.run_harness, ["backup-trace", "-out", tr, "-dir", ctx.sub("bk"), "-rounds", str(ctx.pick(40, 200)),
                              "-secs", str(ctx.pick(45, 330)), "-wps", str(ctx.pick(60, 40)), "-writers", "6",
                              "-cuts", str(ctx.pick(40, 0)),
                              # bounds the whole inter-node transfer of a forwarded backup: a client that misses the end of
